@@ -32,6 +32,8 @@ impl InstructionGenerator {
         for i in 0..else_if_blocks.len() {
             let else_if_block = else_if_blocks[i].clone();
             self.label(&format!("else-if-{}", i), pos);
+            // the ELSEIF condition can fail too: RESUME must come back here, not to the end of the previous block
+            self.mark_statement_address();
 
             // evaluate condition into A
             self.generate_expression_instructions(else_if_block.condition);
